@@ -1,5 +1,6 @@
 import QuillModel.Backend.CtxDrain
 import QuillModel.Backend.ThreadProofs
+import QuillModel.Backend.CtxQuiet
 /-!
 # C20 — exited threads' queues are drained, then reclaimed
 
@@ -172,6 +173,43 @@ theorem C20_idle_poll_retains_live (s0 : BSt) (h0 : CtxFresh s0) (ops : List Op)
   have := hperm.length_eq
   simp only [liveContexts, List.length_map] at this
   exact this
+
+/-- **Once the backend has drained, only live threads' contexts are left.** An idle poll into which nothing is
+    injected (no frontend step interleaves with it: the backend is alone, as after the last statement of a quiet
+    program) that finds every queue and transit buffer empty reports every failure counter before it reclaims, so
+    no context is kept back as "unreported": after it every registered context belongs to a live thread, the
+    registry is a permutation of the contexts of the live threads that have logged, and the numbers agree. A context
+    kept by an earlier, busier poll (`C20_idle_poll_reclaims`) goes at the latest here. -/
+theorem C20_quiet_idle_poll_retains_live (s0 : BSt) (h0 : CtxFresh s0) (ops : List Op) :
+    let s := runOps s0 ops
+    let sp : BSt := { s with siteCnt := [] }
+    let s' := (applyOp s (.poll [])).1
+    s.backendGone = false → (populate (runInj []) sp).2 = 0 →
+    (allEmpty (idleState (runInj []) sp)).2 = true →
+    (idleState (runInj []) sp).registry.length < 2 ^ (idleState (runInj []) sp).cfg.invalidBits →
+    (∀ i ∈ s'.registry, (s'.th i).valid = true) ∧ s'.registry.Perm (liveContexts s') ∧
+    s'.registry.length = (s'.actors.filter (fun x => x.alive && x.ctx.isSome)).length := by
+  intro s sp s' hg hp he hnw
+  apply C20_idle_poll_retains_live s0 h0 ops [] (fun _ h => by cases h) hg hp he hnw
+  -- every registered context has a reported (zero) failure counter
+  intro i hi _
+  have hs : CInv s := CInv_runOps s0 h0.inv ops
+  have hsp : CInv sp := hs
+  have hinjC := runInj_nil_ok CInv_closed.toClosedB
+  have hs'eq : s' = cleanupLoggers (runInj []) (cleanupContexts (allEmpty (idleState (runInj []) sp)).1) := by
+    show (applyOp s (.poll [])).1 = _
+    have hap : applyOp s (.poll []) = if s.backendGone then (s, "noop") else (poll (runInj []) sp, "ev") := rfl
+    rw [hap, hg]
+    exact poll_idle_eq (runInj []) sp hp he
+  -- the state the emptiness check starts from
+  have hXC : CInv (idleState (runInj []) sp) := CInv_idleState hinjC sp hsp
+  obtain ⟨hXfail, hXN⟩ := idleState_nil_facts sp
+  have hXcr : (idleState (runInj []) sp).cache = (idleState (runInj []) sp).registry := hXC.fresh hXN
+  -- follow `i` back
+  have hi' : i ∈ s'.registry := hi
+  show (s'.th i).fail = 0
+  rw [hs'eq] at hi' ⊢
+  exact fail_zero_after_cleanups (runInj []) runInj_nil_quiet9 _ hXfail hXcr i hi'
 
 /-- **Reclaimed only after delivery**: in every reachable state a context that is no longer registered (it was
     reclaimed) has an empty transit buffer and an empty queue, and every statement ever committed to its queue has
